@@ -3,7 +3,7 @@ import absint
 import pf
 import q
 from mir import Agg, Call, Const, Named, Var
-from rules.common import expect_defs, has_fact, option_blocks
+from rules.common import expect_defs, has_fact, opt_fact, option_blocks
 
 GOFN = "sourceview::SourceView::get_original_function_name"
 REV = "<sourceview::RevTokenIter<'view, 'map> as core::iter::traits::iterator::Iterator>::next"
@@ -38,7 +38,7 @@ def pairing(ctx, rule):
     ctx.check(sorted(set(kw)) == ["function"], rule, fn, "keyword", "the preceding token's text is compared with the keyword 'function'", detail=str(kw))
     for bi, sh in rets:
         ctx.check(has_fact(b, bi, roles, ("true", "PartialEq::eq(cur_text,Option::Some{0:arg3})", None)), rule, fn, "match:name", "... when the current token's text is the given minified name", ctx.site(b, bi))
-        ctx.check(has_fact(b, bi, roles, ("variant_in", "Peekable::peek(*)", (1,))), rule, fn, "match:has-prev", "... and a preceding token exists", ctx.site(b, bi))
+        ctx.check(has_fact(b, bi, roles, *opt_fact("some", "Peekable::peek(*)")), rule, fn, "match:has-prev", "... and a preceding token exists", ctx.site(b, bi))
         ctx.check(has_fact(b, bi, roles, ("true", "PartialEq::eq(peeked.1,*)", None)), rule, fn, "match:function", "... whose text equals the keyword", ctx.site(b, bi))
     for p in ("types::SourceMap::get_original_function_name", "types::SourceMapIndex::get_original_function_name"):
         bb = ctx.body(p)
@@ -160,7 +160,7 @@ def strip_shape(ctx, rule):
     v = ctx.body("js_identifiers::is_valid_javascript_identifier")
     calls = [q.shape(v.expr_of_call(t)) for bi, t in v.calls()]
     rets = [q.shape(v.expr_of_rvalue(s["rv"])) for bi, si, s, it in v.locations() if not it and s["k"] == "assign" and s["place"]["l"] == 0]
-    ok = rets == ["Eq(Option::map_or(js_identifiers::strip_identifier(arg1),0,closure:is_valid_javascript_identifier::{closure#0}),str::len(arg1))"]
+    ok = rets == ["Eq(Option::map_or(js_identifiers::strip_identifier(arg1),0,\u03bb(str::len(p1))),str::len(arg1))"]
     ctx.check(ok, rule, v.path, "whole-string", "a string is an identifier exactly when stripping keeps its whole length", detail=str(rets))
     g = ctx.body("js_identifiers::get_javascript_token")
     calls = [q.shape(g.expr_of_call(t)) for bi, t in g.calls()]
